@@ -73,6 +73,13 @@ NESTED_CLAUSES = [
                    "q2 = Query.from_(t1).select(t1.a).where(t1.a.isin(s1))", "q2"),
     ("mssql", "t1 = T('t')\nt2 = T('u')\ns1 = MSSQLQuery.from_(t2).select(t2.a).top(3).orderby(t2.b)\n"
               "q2 = Query.from_(t1).select(t1.a).where(t1.a.isin(s1))", "q2"),
+    # a hinted Vertica statement below a statement boundary, below WITH, as a FROM sub-query: the hint follows ITS keyword
+    ("vertica", "t1 = T('t')\nt2 = T('u')\ns1 = VerticaQuery.from_(t2).select(t2.a).hint('lbl')\n"
+                "q2 = Query.from_(t1).select(t1.a).where(t1.a.isin(s1))", "q2"),
+    ("vertica", "t1 = T('t')\nt2 = T('u')\ns1 = VerticaQuery.from_(t2).select(t2.a).hint('lbl')\n"
+                "q2 = Query.from_(s1.as_('sq')).select('a')", "q2"),
+    ("vertica", "t1 = T('t')\nt2 = T('u')\ns1 = VerticaQuery.from_(t2).select(t2.a)\n"
+                "q2 = VerticaQuery.with_(s1, 'cte0').from_(t1).select(t1.a).hint('outer')", "q2"),
 ]
 
 
